@@ -1,5 +1,5 @@
 (* C08 — property theorems only. *)
-From SwayV Require Import Base.Util Asm.Model Asm.Erase C08.Spec C08.Model C08.Sim C08.Check.
+From SwayV Require Import Base.Util Asm.Model Asm.Erase C08.Spec C08.Model C08.Sim C08.Check C08.StageModel C08.Stages.
 Local Open Scope N_scope.
 
 (* A valid allocation makes the renamed program simulate the virtual-register program in
@@ -77,6 +77,13 @@ Theorem C08_spill_offsets_distinct : forall spills locals r1 r2 o1 o2,
   locals <= o1 /\ o1 + 8 <= locals + 8 * N.of_nat (length spills).
 Proof. exact spill_offsets_distinct. Qed.
 Print Assumptions C08_spill_offsets_distinct.
+
+(* Stage lemma (model of assign_registers, not tied to dumps): for ANY colouring stack the pool
+   it returns never puts two neighbours (neighbors_undirected) into one machine register. *)
+Theorem C08_assign_proper : forall adj, (forall a b, In a (adj b) -> In b (adj a)) -> (forall v, ~ In v (adj v)) ->
+  forall stack k p', assign adj stack (init_pool k) = Some p' -> proper adj p'.
+Proof. intros adj Hs Hi stack k p' H. eapply assign_proper; eauto. apply init_pool_proper. Qed.
+Print Assumptions C08_assign_proper.
 
 (* Non-vacuity: a loop with two simultaneously live registers; a correct 2-register assignment
    is accepted, merging the two live registers is rejected. *)
